@@ -57,6 +57,8 @@ def cases(ctx):
     for i in range(ctx.per_shard(ctx.pick(60, 1500))):
         yield {"kind": "long", "seed": rng.getrandbits(32), "salt": rng.choice(SALTS),
                "sizes": [1000, 1100, 1500, 3000] if ctx.quick or i % 10 else [10 ** 4, 30000]}
+    for i in range(ctx.per_shard(ctx.pick(60, 1500))):
+        yield {"kind": "bigdigits", "seed": rng.getrandbits(32), "salt": rng.choice(SALTS), "n": rng.choice([4299, 4301, 4400, 5000, 9000])}
     for i in range(ctx.per_shard(ctx.pick(6, 300))):
         yield {"kind": "files", "seed": rng.getrandbits(32), "salt": rng.choice(SALTS)}
     yield {"kind": "mutate", "seed": rng.getrandbits(32), "rounds": ctx.per_shard(ctx.pick(3000, 300000))}
@@ -160,6 +162,18 @@ def check_case(ctx, case):
         line = rng.choice(shapes).replace("\n", "")
         ctx.count("long_lines")
         return check_lines(ctx, case, nc, opts, ["pwd", "ip", "words", "asn"], [line], tag="long ")
+    if k == "bigdigits":
+        # digit runs beyond the interpreter's int<->str conversion limit (4300 digits), where numbers are parsed
+        rng = random.Random(case["seed"])
+        opts = opts_for(case["salt"], rng)
+        n = case["n"]
+        z, d = "0" * n, "".join(rng.choice("0123456789") for _ in range(n))
+        shapes = ["ip address " + z + "11.22.33.44 255.255.255.0", "ip address 11." + z + "22.33.44", "host 1.2.3." + z + "4", "ipv6 address " + z + "1::2/64",
+                  "ipv6 address 2001:db8::" + z + "1", "router bgp " + d, "router bgp 65000" + z, "neighbor 1.2.3.4 remote-as " + z + "65000",
+                  "password " + d, "enable password 7 " + d, "snmp-server community " + d + " ro", "password 7 08" + d, "key 1 " + d,
+                  "username u password 0 " + z, "set community " + d + ":" + d, "ip address 1.2.3.4/" + d, d + "." + d + "." + d + "." + d]
+        ctx.count("bigdigit_lines")
+        return check_lines(ctx, case, nc, opts, ["pwd", "ip", "words", "asn"], [rng.choice(shapes)], undo=rng.random() < 0.2, tag="digits ")
     if k == "g4":
         return _g4(ctx, case, nc)
     if k == "files":
